@@ -1,7 +1,7 @@
 #!/usr/bin/env python3
 """After the harness or /repo changed: re-create the replay files that known_findings.json
 references.  Run the relevant checks first (./check C06 quick; ./check C10 quick;
-XSIM_START=6811 XSIM_RUNS=1 ./check C10 quick); this copies, for every listed finding, the
+XSIM_START=24484 XSIM_RUNS=1 ./check C10 quick); this copies, for every listed finding, the
 newest replay in /verif/replays/<prop>/ whose recorded signature matches, and verifies it."""
 import os, sys, json, glob, shutil, subprocess
 V = os.path.dirname(os.path.dirname(os.path.abspath(__file__)))
